@@ -278,6 +278,20 @@ fn e2e_batch(sink: &mut Sink, r: &mut Rng, fams: &[Family], bin: &str, scratch: 
         let n = |c: char| truth.chars().filter(|x| *x == c).count();
         expect.push((name, n('c'), n('m'), n('b'), n('i')));
     }
+    // two files whose names differ only in letter case, of the same size: all code, all comment
+    if !exts.contains(&"rs".to_string()) {
+        exts.push("rs".to_string());
+    }
+    std::fs::write(dir.join("src/Twin.rs"), "let a = 1;\nlet b = 2;\n").unwrap();
+    std::fs::write(dir.join("src/twin.rs"), "// aaaaaaa\n// bbbbbbb\n").unwrap();
+    expect.push(("src/Twin.rs".to_string(), 2, 0, 0, 0));
+    expect.push(("src/twin.rs".to_string(), 0, 2, 0, 0));
+    // old enough for the SLOC cache to keep them
+    for (name, ..) in &expect {
+        if let Ok(h) = std::fs::OpenOptions::new().write(true).open(dir.join(name)) {
+            let _ = h.set_modified(std::time::UNIX_EPOCH + std::time::Duration::from_secs(1_600_000_000));
+        }
+    }
     let list = exts.iter().map(|e| format!("\"{e}\"")).collect::<Vec<_>>().join(", ");
     let mut pred: Option<String> = None;
     let mut seen_ignored = false;
@@ -285,14 +299,18 @@ fn e2e_batch(sink: &mut Sink, r: &mut Rng, fams: &[Family], bin: &str, scratch: 
         ("defaults", "", vec![]),
         ("skip_comments = false, skip_blank = false", "skip_comments = false\nskip_blank = false\n", vec![]),
         ("--count-comments --count-blank", "", vec!["--count-comments", "--count-blank"]),
+        // the same classification must come out of the SLOC cache (cold, then warm)
+        ("defaults, cold cache", "", vec!["--cached"]),
+        ("defaults, warm cache", "", vec!["--cached"]),
     ] {
         std::fs::write(dir.join(".sloc-guard.toml"), format!("version = \"2\"\n[scanner]\ngitignore = false\n[content]\nmax_lines = 100000\nextensions = [{list}]\n{extra}")).unwrap();
-        let mut argv = vec!["check", "--no-sloc-cache", "--format", "json"];
-        argv.extend(args.iter());
+        let cached = args.contains(&"--cached");
+        let mut argv = if cached { vec!["check", "--format", "json"] } else { vec!["check", "--no-sloc-cache", "--format", "json"] };
+        argv.extend(args.iter().filter(|a| **a != "--cached"));
         argv.push(".");
         let o = std::process::Command::new(bin).args(&argv).current_dir(&dir).env("NO_COLOR", "1").output().expect("run sloc-guard");
         let v: serde_json::Value = serde_json::from_slice(&o.stdout).unwrap_or(serde_json::Value::Null);
-        let all = label != "defaults";
+        let all = !label.starts_with("defaults");
         for (name, c, m, b, i) in &expect {
             if *c + *m + *b + *i == 0 {
                 continue;
